@@ -346,6 +346,29 @@ theorem get_user (op : TokenOptions) (now : Int) (tok : Token K) (hg : generate 
 
 end
 
+/-- **The specification stream of the check is this property.**  `Spec.validOk` — the independent
+    definition the driver prints as the third stream (signature provenance established outside, caveats
+    counted rather than looped over) — accepts exactly the tokens `validate` accepts, whenever the
+    provenance `prov` says truthfully whether the signature is the chain of the token's own content
+    under the validating key. -/
+theorem spec_validOk_iff {K : Type} [DecidableEq K] (S : MacScheme K) (op : TokenOptions) (t : Token K) (now : Int)
+    (prov : Option Bytes)
+    (hprov : prov = some op.keyBytes ↔ t.sig = chain S op.keyBytes t.id (t.caveats.map (·.cid))) :
+    Spec.validOk op.keyBytes op.user now prov t.id t.caveats = true ↔ validate S op (some t) now = .ok () := by
+  rw [validate_iff]
+  unfold Spec.validOk
+  simp only [Bool.and_eq_true, beq_iff_eq, all_eq_true, List.isEmpty_iff]
+  have hc := spec_caveats_iff (t.caveats.map (·.cid)) op.user now
+  simp only [length_map] at hc
+  constructor
+  · rintro ⟨⟨⟨⟨⟨h1, h2⟩, h3⟩, h4⟩, h5⟩, h6⟩
+    obtain ⟨s, hs, hp⟩ := hc.1 ⟨h3, h4, h5, h6⟩
+    obtain ⟨e, he, hlt⟩ := (verifyExpiry_iff s now).1 hs
+    exact ⟨hprov.1 h1, h2, s, e, he, hlt, hp⟩
+  · rintro ⟨h1, h2, s, e, he, hlt, hp⟩
+    obtain ⟨h3, h4, h5, h6⟩ := hc.2 ⟨s, (verifyExpiry_iff s now).2 ⟨e, he, hlt⟩, hp⟩
+    exact ⟨⟨⟨⟨⟨hprov.2 h1, h2⟩, h3⟩, h4⟩, h5⟩, h6⟩
+
 /-! ### Non-vacuity: the hypotheses are satisfiable -/
 
 /-- `IdealMac` is satisfiable -/
